@@ -4,6 +4,8 @@ M1  first match wins is wired in: one selector `!has_prev_match & is_match` driv
     updated afterwards, clauses are visited in source order
 M2  sibling constructors split alike: signed scrutinees are split at the arms' boundaries exactly like unsigned ones
 M3  range patterns are lowered with both bound comparisons on every path (inclusive on both ends)
+M5  sibling consistency of the parser: struct definitions, struct patterns and struct literals all sort their field lists
+    (the exhaustiveness check pairs pattern fields with definition fields by position)
 M4  compound patterns: each field pattern is matched against match_expr[w .. w + size of the field], w advances by that size on
     every path of the iteration (also when the field has no pattern), and the field verdicts are AND-ed into the result
 """
@@ -327,5 +329,52 @@ def rule_m4(ctx):
     return res
 
 
+def rule_m5(ctx):
+    """Struct definitions, struct patterns and struct literals are brought into one canonical field order by the parser; the
+    exhaustiveness check pairs pattern fields with definition fields by position."""
+    res = RuleResult("M5", "every parser site that produces a struct field list sorts it (definitions, patterns, literals agree on the order)")
+    n = 0
+    for f in ctx.facts["fns"]:
+        if "mir" not in f or not f["sp"][0].endswith("parse.rs") or f.get("from_expansion"):
+            continue
+        body = ctx.body(f["id"])
+        sorts = []
+        for b, t in body.calls():
+            seg = mir.last_seg(mir.callee(t) or "")
+            if seg.startswith("sort") and t["args"]:
+                sorts.append((b, {(r, tuple(p)) for (r, p) in body.trace_operand(t["args"][0])}))
+        for b, blk in enumerate(body.blocks):
+            if blk["cleanup"]:
+                continue
+            for st in blk["stmts"]:
+                if st["k"] != "assign" or st["rv"]["k"] != "aggregate":
+                    continue
+                rv = st["rv"]
+                what = None
+                if rv.get("adt") == "ast::PatternEnum" and rv.get("variant") in ("Struct", "StructIgnoreRemaining"):
+                    what = "struct pattern"
+                elif rv.get("adt") == "ast::ExprEnum" and rv.get("variant") == "StructLiteral":
+                    what = "struct literal"
+                elif (rv.get("adt") or "") == "ast::StructDef":
+                    what = "struct definition"
+                if not what:
+                    continue
+                # the field list: the Vec-typed operand
+                vecs = [o for o in rv["ops"] if o["k"] in ("copy", "move") and o["place"]["ty"].startswith("std::vec::Vec<(")]
+                if len(vecs) != 1:
+                    continue
+                n += 1
+                key = {(r, tuple(p)) for (r, p) in body.trace_operand(vecs[0])}
+                if any(body.dominates(sb, b) and (sk & key) for (sb, sk) in sorts):
+                    res.ok({"site": "%s at line %d" % (what, st["sp"][1]), "verdict": "field list sorted before it is stored"})
+                else:
+                    res.bad(Finding("M5", f["id"], "%s keeps its fields in source order" % what,
+                                    "the other struct field lists are sorted by name and the exhaustiveness check pairs pattern fields with definition fields by position: "
+                                    "fields written in another order are checked against the wrong field types", st["sp"]))
+    if n < 4 and not res.findings:
+        raise AnchorMissing("M5: expected the struct definition / pattern (2) / literal constructions in parse.rs, found %d" % n)
+    return res
+
+
 def run(ctx):
-    return ctx.run_rules([rule_m1, rule_m2, rule_m3, rule_m4])
+    return ctx.run_rules([rule_m1, rule_m2, rule_m3, rule_m4, rule_m5])
